@@ -621,3 +621,83 @@ Lemma lazy_example_supported :
   /\ run_lazy [12] [] [AList [0; 9]] = spec_getitem [12] (arange [12] 0) [] [] 0 [AList [0; 9]]
   /\ run_lazy [12] [] [AList [0; 9]] <> Err.
 Proof. repeat split; vm_compute; try reflexivity; discriminate. Qed.
+
+(* ------------------------------------------------------------------ shape / dtype of self[:] *)
+
+Lemma init_shape_keep : forall shape ixs1 lks sels1,
+  Forall (fun d => 0 <= d) shape -> List.length ixs1 = List.length shape ->
+  mapM (fun p => mk_lookup (fst p) (snd p)) (combine shape ixs1) = Ok lks ->
+  mapM (fun p => ps <- resolve_keep (fst p) (snd p) ;; Ok (ps, false)) (combine shape ixs1) = Ok sels1 ->
+  map (fun p => init_len (fst p) (snd p)) (combine shape lks) = take_shape sels1.
+Proof.
+  induction shape as [|n shape IH]; intros ixs1 lks sels1 Hs L1 HL HK.
+  - destruct ixs1; try discriminate. cbn in *. injection HL as <-. injection HK as <-. reflexivity.
+  - destruct ixs1 as [|i1 ixs1]; try discriminate. inversion Hs as [|? ? Hn Hs']; subst.
+    cbn [combine mapM fst snd] in HL, HK.
+    destruct (mk_lookup n i1) as [lk|] eqn:E1; [|discriminate]. cbn [bind] in HL.
+    destruct (mapM (fun p => mk_lookup (fst p) (snd p)) (combine shape ixs1)) as [lks'|] eqn:E2; [|discriminate].
+    cbn [bind] in HL. injection HL as <-.
+    destruct (resolve_keep n i1) as [p1|] eqn:E3; [|discriminate]. cbn [bind] in HK.
+    destruct (mapM (fun p => ps <- resolve_keep (fst p) (snd p) ;; Ok (ps, false)) (combine shape ixs1)) as [sels1'|] eqn:E4;
+      [|discriminate]. cbn [bind] in HK. injection HK as <-.
+    cbn [combine map take_shape fst snd]. f_equal.
+    + symmetry. apply lookup_rel_len; auto. eapply lookup_rel_ok; eauto.
+    + eapply IH; eauto; cbn in L1; lia.
+Qed.
+
+Lemma mk_lazy_fields shape ds k1 ts dt li a1 : Forall (fun d => 0 <= d) shape ->
+  mk_lazy shape k1 ts dt = Ok li -> oindex_keep (mk_nd shape ds) k1 = Ok a1 ->
+  initial_shape li = nd_shape a1 /\ li_shape li = shape /\ li_ts li = ts /\ li_dtype0 li = dt
+  /\ Forall (fun d => 0 <= d) (nd_shape a1) /\ List.length (nd_shape a1) = List.length shape.
+Proof.
+  intros Hs HM H1. unfold mk_lazy in HM.
+  destruct (mapM _ _) as [lks|] eqn:EL in HM; [|discriminate]. cbn [bind] in HM.
+  destruct (lazy_shape _) in HM; [|discriminate]. cbn [bind] in HM. injection HM as <-.
+  unfold oindex_keep, keep_sels in H1. cbn [nd_shape nd_body] in H1.
+  destruct (mapM _ _) as [sels1|] eqn:EK in H1; [|discriminate]. cbn [bind] in H1. injection H1 as <-.
+  cbn [nd_shape li_shape li_ts li_dtype0]. unfold initial_shape. cbn [li_shape li_lookup].
+  split; [eapply init_shape_keep; eauto; apply pad_to_length|].
+  split; [reflexivity|]. split; [reflexivity|]. split; [reflexivity|].
+  assert (K : Forall (fun s => snd s = false) sels1).
+  { clear -EK. revert sels1 EK. generalize (combine shape (pad_to (List.length shape) k1)).
+    induction l as [|x r IH]; intros sels1 EK; cbn in EK.
+    - injection EK as <-. constructor.
+    - destruct (resolve_keep (fst x) (snd x)); [|discriminate]. cbn in EK.
+      destruct (mapM _ r) eqn:E; [|discriminate]. cbn in EK. injection EK as <-. constructor; auto. }
+  rewrite take_shape_keep by assumption. split.
+  - apply Forall_forall. intros x Hx. apply in_map_iff in Hx. destruct Hx as [y [<- _]]. apply zlen_nonneg.
+  - rewrite map_length. apply mapM_ok_length in EK. rewrite EK. rewrite combine_length, pad_to_length. lia.
+Qed.
+
+Lemma pad_to_nil k : pad_to k [] = repeat full k.
+Proof. induction k; cbn; [reflexivity|]. now rewrite IHk. Qed.
+
+Lemma resolve_full n : 0 <= n -> resolve n full = Ok (zrange n, false).
+Proof. intro H. unfold full, resolve, slice_positions. rewrite slice_indices_full. now rewrite py_range_full. Qed.
+
+Lemma resolve_all_nil dims : Forall (fun d => 0 <= d) dims -> resolve_all dims [] = Ok (full_sels dims).
+Proof.
+  unfold resolve_all. rewrite pad_to_nil. induction 1 as [|d r Hd _ IH]; [reflexivity|].
+  cbn [List.length repeat combine mapM fst snd]. rewrite resolve_full by assumption. cbn [bind]. rewrite IH. reflexivity.
+Qed.
+
+Lemma take_shape_full_sels dims : Forall (fun d => 0 <= d) dims -> take_shape (full_sels dims) = dims.
+Proof. induction 1 as [|d r Hd _ IH]; [reflexivity|]. unfold full_sels in *. cbn [map take_shape]. rewrite IH. now rewrite zrange_length. Qed.
+
+(* C05_shape_dtype: the shape and dtype properties are those of self[:] *)
+Lemma getitem_full_shape_dtype shape ds k1 ts dt li a1 out s : Forall (fun d => 0 <= d) shape ->
+  mk_lazy shape k1 ts dt = Ok li -> oindex_keep (mk_nd shape ds) k1 = Ok a1 ->
+  lazy_shape li = Ok s -> getitem li ds [] = Ok out ->
+  nd_shape (a_nd out) = s /\ a_dtype out = lazy_dtype li.
+Proof.
+  intros Hs HM H1 HSh HG.
+  destruct (mk_lazy_fields _ _ _ _ _ _ _ Hs HM H1) as [F1 [F2 [F3 [F4 [F5 F6]]]]].
+  pose proof (getitem_correct _ _ _ _ _ _ _ _ _ Hs HM H1 HG) as SP.
+  unfold spec_getitem in SP. rewrite H1 in SP. cbn [bind] in SP.
+  unfold oindex in SP. rewrite resolve_all_nil in SP by assumption. cbn [bind] in SP.
+  destruct (apply_transforms_shape_dtype _ _ _ SP) as [S D]. cbn [a_nd a_dtype nd_shape] in S, D.
+  rewrite take_shape_full_sels in S by assumption.
+  unfold lazy_shape in HSh. rewrite F1, F3 in HSh.
+  destruct (negb _ && _) in HSh; [|discriminate]. injection HSh as <-.
+  split; [exact S|]. unfold lazy_dtype. now rewrite F3, F4.
+Qed.
